@@ -640,6 +640,41 @@ func runC06Loose(c *Ctx) {
 	if occ == 0 {
 		c.undecided("(*RuleExpression).checkMatrix|merge with an expression's type", cm.Pos(), "no merge of an expression's type found")
 	}
+	// when the whole include section is an expression, the strict object built from the rows is never returned as is
+	nret := 0
+	for _, b := range cm.Blocks {
+		ret, ok := b.Instrs[len(b.Instrs)-1].(*ssa.Return)
+		if !ok {
+			continue
+		}
+		underExpr := false
+		for ifi, outcome := range controllingConds(b) {
+			if v, nilSucc, ok := nilTest(ifi); ok {
+				if f, _ := fieldLoad(v); f == "MatrixCombinations.Expression" && (nilSucc == 0) != outcome {
+					underExpr = true
+				}
+			}
+		}
+		if !underExpr {
+			continue
+		}
+		nret++
+		construct := fmt.Sprintf("(*RuleExpression).checkMatrix|result when include is an expression#%d", nret)
+		strict := false
+		for _, k := range scopeCtors(p, ret.Results[0], 0, map[ssa.Value]bool{}) {
+			if k == "NewEmptyStrictObjectType" {
+				strict = true
+			}
+		}
+		if strict {
+			c.bad(construct, ret.Pos(), "the closed object built from the literal rows is returned although the include section is an expression whose keys are unknown: references to keys it may add are reported")
+		} else {
+			c.ok(construct, ret.Pos(), "the merged or an open object")
+		}
+	}
+	if nret == 0 {
+		c.undecided("(*RuleExpression).checkMatrix|result when include is an expression", cm.Pos(), "no return under `Include.Expression != nil`")
+	}
 }
 
 // ---- C06.OPEN ----
